@@ -17,6 +17,9 @@ def run_case(c):
         if sp == sh:
             R.append(call("list", {"items": [{"root": list(root), "sh": sh}, {"root": list(root), "sh": "m7"}]},
                           lambda: chords.from_shorthand([root + sh, root + "m7"]), listof(names)))
+            if sh in ("", "m7", "9"):
+                R.append(call("list_nc", {"items": [{"root": list(root), "sh": sh}, {"root": list(root), "sh": "m7"}]},
+                              lambda: chords.from_shorthand([root + sh, "NC", root + "m7", "N.C."]), listof(names)))
             fn = chords.chord_shorthand.get(sh)
             if fn is not None:
                 R.append(call("builder", {"root": list(root), "sh": sh, "fn": getattr(fn, "__name__", "?")},
